@@ -18,6 +18,9 @@ MOD = 'checks.c01_crash'
 KINDS = ['new', 'new2', 'mod', 'mod2', 'big', 'meta', 'empty', 'del', 'undo', 'stale',
          'restore', 'ab1', 'ab2', 'reopen']
 PROBE_OID = p64(0x99)
+# a non-initial state: two objects, both modified, one modified again (so
+# that undo of the middle transaction is refused for one of its objects)
+RICH = [['new2', 1, 2], ['mod2', 1, 2], ['mod', 2]]
 
 
 def make_spec(cfg):
@@ -35,8 +38,11 @@ def build(cfg, hist, spec):
     w.snap0 = iolog.snapshot(w.dir)
     w.k0 = 0
     w.n0 = 0
+    # 'start': a fixed non-initial state from which the tree is explored
+    nrel = len(hist)
+    hist = [tuple(o) for o in cfg.get('start', [])] + list(hist)
     for i, op in enumerate(hist):
-        if i == len(hist) - 1:
+        if nrel and i == len(hist) - 1:
             w.k0 = len(iolog.LOG.ops)
             w.n0 = len(w.model.txns)
         w.apply(tuple(op), spec)
@@ -163,10 +169,10 @@ def judge_image(w, disk, k, j, cfg, res):
                 if not bad:
                     ok = True
                     break
-                if first_bad is None:
-                    first_bad = (p, bad[0])
+                if first_bad is None or len(bad) < first_bad[2]:
+                    first_bad = (p, bad[0], len(bad))
             if not ok:
-                p, (q, e, g) = first_bad
+                p, (q, e, g), _ = first_bad
                 viol.append(('prefix', '%s:%s' % (
                     where, battery.sig_of('', q, e, g).lstrip(':')),
                     dict(cut=(k, j), op=_opdesc(w, k), allowed=allowed,
@@ -297,10 +303,14 @@ def node(w, hist, cfg, res):
 def run(rep, tier, seed, workers):
     if tier == 'quick':
         plan = [dict(prop='C01', kind='F', bufsize=8192, depth=3),
-                dict(prop='C01', kind='F', bufsize=32, depth=2)]
+                dict(prop='C01', kind='F', bufsize=32, depth=2),
+                dict(prop='C01', kind='F', bufsize=8192, depth=2,
+                     start=RICH)]
     else:
         plan = [dict(prop='C01', kind='F', bufsize=8192, depth=4),
-                dict(prop='C01', kind='F', bufsize=32, depth=3)]
+                dict(prop='C01', kind='F', bufsize=32, depth=3),
+                dict(prop='C01', kind='F', bufsize=8192, depth=3,
+                     start=RICH)]
     rep.rule = (
         'for every history over the alphabet (commit of new / modified / two '
         'objects, 9000-byte record, metadata up to 65535 bytes, empty, '
@@ -317,7 +327,9 @@ def run(rep, tier, seed, workers):
         depth = cfg.pop('depth')
         fps = seqx.explore(rep, MOD, cfg, depth, workers, seed)
         states += len(fps)
-        rep.bounds['buf%d depth' % cfg['bufsize']] = depth
+        rep.bounds['buf%d%s depth' % (
+            cfg['bufsize'], ' from rich state' if cfg.get('start') else '')] \
+            = depth
     rep.cov['states'] = states
     rep.assumptions = [
         'crash model: prefix of the issued write/truncate/rename sequence '
